@@ -595,6 +595,30 @@ def sec_clifford(ctx, rng, case):
     ctx.check(tv <= 1e-9 and abs(ex.total() - 1) < 1e-9, "clifford-run-distribution==born", "C02:clifford-run-distribution:" + which,
               lambda: "total variation %.3g between %s's exact outcome distribution and the Born rule" % (tv, which),
               got={str(k): v for k, v in list(got.items())[:8]}, want={str(k): v for k, v in list(ref.items())[:8]}, **wit)
+    # several repetitions in one run are independent runs (each starts from the circuit's initial state, not from
+    # whatever an earlier repetition left behind)
+    if not _is_terminal_only(steps) and len(ref) <= 6 and len(ex.paths) <= 12:
+        R = 2 if len(ref) > 3 else 3
+
+        def run_many(rng_obj):
+            if which == "CliffordSimulator":
+                res = cirq.CliffordSimulator(seed=rng_obj).run(circuit, repetitions=R)
+            elif which == "CliffordSimulator-nosplit":
+                res = cirq.CliffordSimulator(seed=rng_obj, split_untangled_states=False).run(circuit, repetitions=R)
+            else:
+                res = cirq.StabilizerSampler(seed=rng_obj).run(circuit, repetitions=R)
+            return tuple(tuple((k, tuple(tuple(int(x) for x in i_) for i_ in res.records[k][r])) for k in sorted(res.records)) for r in range(R))
+
+        exm = SR.explore(run_many, max_paths=2500, min_branch=1e-9)
+        if exm.over_budget:
+            ctx.event("explorer-over-budget")
+        else:
+            want = {(): 1.0}
+            for _ in range(R):
+                want = {ks + (k1,): p0 * p1 for ks, p0 in want.items() for k1, p1 in ref.items()}
+            tvm = L.tv_distance(exm.distribution(), want)
+            ctx.check(tvm <= 1e-9, "repetitions-independent", "C02:repetitions-not-independent:" + which,
+                      lambda: "joint distribution of %d repetitions differs from the product distribution by TV %.3g" % (R, tvm), R=R, **wit)
     ctx.distinct((n, tuple(P.describe(steps)), which), nontrivial=sum(1 for p_ in ref.values() if p_ > 1e-9) >= 2)
     ctx.sample({"n": n, "program": P.describe(steps), "simulator": which, "paths": len(ex.paths)})
 
